@@ -1,5 +1,192 @@
+(* C18 -- the gateway attributes progress/results to the right job and keeps the newest.
+   Model: Gateway/Router.v (JobRouter + handle_fe/handle_controller + the dispatch of
+   serve, with the `fix:` commit that records last_seen).  A history is any list of events:
+   frontend requests and controller reports read from the per-job sockets.
+   `run [] pre = (opre, Ok st)` reads: the gateway processed `pre` from its initial state,
+   produced the outputs `opre`, and no exception left the loop.
+   `handled pre opre` are the reports handle_controller actually received (read from a
+   socket that was still registered); `progress_reports j`, `uploads j d` select from them
+   by the job id / dataset id *carried by the report*. *)
 From Coq Require Import List NArith ZArith String Bool.
-From EKW Require Import Gateway.Router.
+From EKW Require Import Gateway.Router Gateway.RouterProofs.
+From EKW Require Gateway.RouterCheck.   (* not used here: keeps the correspondence checker's .vo in step with the model *)
 Import ListNotations.
-Theorem C18_placeholder : True. Proof. exact I. Qed.
-Print Assumptions C18_placeholder.
+Open Scope string_scope.
+Open Scope list_scope.
+
+(* (1) After every history, a JobProgressResponse lists exactly the jobs asked for (all
+   tracked jobs for the empty list) and shows for each the status of the FIRST received
+   progress report among those with the GREATEST timestamp -- "0.00" if none with a
+   timestamp >= 0 was received.  Reports whose status is None or "Shutdown" are not
+   progress reports, so a late older report or the shutdown notice never changes it. *)
+Theorem C18_progress_is_newest : forall pre opre st ids st' ps,
+  run [] pre = (opre, Ok st) ->
+  handle_fe st (JobProgressRequest ids) = (st', JobProgressResponse ps None) ->
+  st' = st /\
+  (forall j, In j (map fst ps) <-> In j (asked st ids)) /\
+  forall j p, In (j, p) ps ->
+    (p = JobProgressStarted /\ forall x, In x (progress_reports j pre opre) -> (fst x <= -1)%Z) \/
+    (exists t l1 l2, progress_reports j pre opre = l1 ++ (t, p) :: l2 /\ (-1 < t)%Z /\
+       (forall x, In x l1 -> (fst x < t)%Z) /\ (forall x, In x l2 -> (fst x <= t)%Z)).
+Proof. exact progress_response_newest. Qed.
+
+(* (1b) the shutdown notice leaves every job's progress as it was *)
+Theorem C18_shutdown_keeps_progress : forall st r st',
+  handle_controller st r = Ok st' -> is_shutdown r = true ->
+  forall j, option_map progress (jlookup j st') = option_map progress (jlookup j st).
+Proof. exact shutdown_keeps_progress. Qed.
+
+(* (1c) a job's socket is read exactly until the first shutdown report naming the job *)
+Theorem C18_socket_read_until_shutdown : forall j evs outs st,
+  run [] evs = (outs, Ok st) ->
+  polled st j = true <-> (jlookup j st <> None /\ shutdowns j evs outs = []).
+Proof. exact polled_until_shutdown. Qed.
+
+(* (2) After every history, the answer to a ResultRetrievalRequest for (j, d) is the payload
+   of the last upload received for exactly that job and that dataset, byte for byte, and an
+   error when there was none (in particular for uploads made for another job or dataset). *)
+Theorem C18_results_exact : forall pre opre st j d,
+  run [] pre = (opre, Ok st) ->
+  handle_fe st (ResultRetrievalRequest j d) =
+    (st, match rev (uploads j d pre opre) with
+         | b :: _ => ResultRetrievalResponse (Some b) None
+         | [] => ResultRetrievalResponse None (Some "KeyError")
+         end).
+Proof. exact result_response_exact. Qed.
+
+(* (3) Job ids handed out are pairwise distinct over the whole life of the gateway, whatever
+   candidates uuid4 produces; each is untracked before and tracked after its submit. *)
+Theorem C18_ids_never_reused : forall evs outs fin,
+  run [] evs = (outs, fin) -> NoDup (submitted outs).
+Proof. intros evs outs fin H. exact (proj1 (run_submitted evs [] outs fin H)). Qed.
+
+Theorem C18_submitted_id_is_fresh : forall pre opre st cands ok st' id err,
+  run [] pre = (opre, Ok st) ->
+  handle_fe st (SubmitJobRequest cands ok) = (st', SubmitJobResponse (Some id) err) ->
+  jlookup id st = None /\ jlookup id st' <> None /\ ~ In id (submitted opre) /\ In id cands.
+Proof. exact submit_response_fresh. Qed.
+
+(* (4) A request naming an unknown job or dataset gets an error response, the state is
+   untouched ... *)
+Theorem C18_unknown_is_local_error : forall st,
+  (forall ids j, In j ids -> jlookup j st = None ->
+     handle_fe st (JobProgressRequest ids) = (st, JobProgressResponse [] (Some "KeyError"))) /\
+  (forall j d, (jlookup j st = None \/ exists jb, jlookup j st = Some jb /\ lookup ds_eqb d (results jb) = None) ->
+     handle_fe st (ResultRetrievalRequest j d) = (st, ResultRetrievalResponse None (Some "KeyError"))).
+Proof. intro st. split; [exact (unknown_job_progress_error st)|exact (unknown_result_error st)]. Qed.
+
+(* ... requests naming only tracked jobs are answered without error ... *)
+Theorem C18_known_jobs_answered : forall st ids,
+  (forall i, In i (asked st ids) -> jlookup i st <> None) ->
+  exists ps, handle_fe st (JobProgressRequest ids) = (st, JobProgressResponse ps None).
+Proof. exact known_jobs_answered. Qed.
+
+(* ... and every other event of the history is served exactly as if the (possibly failing)
+   query had never been made. *)
+Theorem C18_query_is_local : forall pre q post st opre st1 opost fin,
+  is_query q = true ->
+  run st pre = (opre, Ok st1) -> run st1 post = (opost, fin) ->
+  run st (pre ++ post) = (opre ++ opost, fin) /\
+  run st (pre ++ Fe q :: post) = (opre ++ Resp (snd (handle_fe st1 q)) :: opost, fin).
+Proof. exact query_is_local. Qed.
+
+(* (5) The gateway keeps serving: whatever the interleaving, duplication and reordering of
+   requests and of reports arriving on the socket of the job they name (duplicated shutdown
+   notices included), no exception leaves the loop and every event gets its output. *)
+Theorem C18_never_leaves_loop : forall evs,
+  Forall own_socket evs ->
+  exists outs st, run [] evs = (outs, Ok st) /\ List.length outs = List.length evs.
+Proof. intros evs H. exact (run_own_ok evs [] H). Qed.
+
+(* ------------------------------------------------------------------ non-vacuity *)
+(* two jobs (the second id obtained after two uuid collisions), a late older report, a tie,
+   a duplicated shutdown, uploads of the same dataset name for both jobs, unknown-id queries *)
+Definition d0 : dsid := (7, 8)%N.
+Definition ex_pre : list event := [
+  Fe (SubmitJobRequest [1%N] true);
+  Fe (SubmitJobRequest [1%N; 1%N; 2%N] true);
+  Ctl 1%N (mkReport 1%N (Some "50.00") 200 []);
+  Ctl 2%N (mkReport 2%N None 5 [(d0, [2%N])]);
+  Ctl 1%N (mkReport 1%N (Some "10.00") 100 [(d0, [1%N; 255%N])]);
+  Ctl 1%N (mkReport 1%N (Some "51.00") 200 []);
+  Ctl 1%N (mkReport 1%N (Some "Shutdown") 300 []);
+  Ctl 1%N (mkReport 1%N (Some "Shutdown") 300 []);
+  Ctl 1%N (mkReport 1%N (Some "99.00") 400 []);
+  Fe (JobProgressRequest [1%N; 3%N])
+].
+Definition ex_run := run [] ex_pre.
+
+Example C18_progress_is_newest_nonvacuous :
+  exists opre st ps,
+    ex_run = (opre, Ok st) /\
+    handle_fe st (JobProgressRequest []) = (st, JobProgressResponse ps None) /\
+    In (1%N, "50.00") ps /\ In (2%N, "0.00") ps /\
+    progress_reports 1%N ex_pre opre = [(200%Z, "50.00"); (100%Z, "10.00"); (200%Z, "51.00")].
+Proof.
+  eexists _, _, _. split; [vm_compute; reflexivity|]. split; [vm_compute; reflexivity|].
+  split; [left; reflexivity|]. split; [right; left; reflexivity|]. vm_compute. reflexivity.
+Qed.
+
+Example C18_shutdown_keeps_progress_nonvacuous :
+  exists st r st', handle_controller st r = Ok st' /\ is_shutdown r = true /\
+                   option_map progress (jlookup 1%N st) = Some "50.00".
+Proof.
+  exists [(1%N, mkJob "50.00" 200 [] true)], (mkReport 1%N (Some "Shutdown") 300 []). eexists.
+  split; [vm_compute; reflexivity|]. split; reflexivity.
+Qed.
+
+Example C18_socket_read_until_shutdown_nonvacuous :
+  exists opre st, ex_run = (opre, Ok st) /\ polled st 1%N = false /\ polled st 2%N = true /\
+                  shutdowns 1%N ex_pre opre = [tt] /\ nth_error opre 7 = Some Dropped.
+Proof. eexists _, _. repeat split; vm_compute; reflexivity. Qed.
+
+Example C18_results_exact_nonvacuous :
+  exists opre st, ex_run = (opre, Ok st) /\
+    uploads 1%N d0 ex_pre opre = [[1%N; 255%N]] /\ uploads 2%N d0 ex_pre opre = [[2%N]] /\
+    uploads 1%N (8, 7)%N ex_pre opre = [] /\
+    handle_fe st (ResultRetrievalRequest 1%N d0) = (st, ResultRetrievalResponse (Some [1%N; 255%N]) None).
+Proof. eexists _, _. repeat split; vm_compute; reflexivity. Qed.
+
+Example C18_ids_never_reused_nonvacuous :
+  exists opre fin, ex_run = (opre, fin) /\ submitted opre = [1%N; 2%N].
+Proof. eexists _, _. split; vm_compute; reflexivity. Qed.
+
+Example C18_submitted_id_is_fresh_nonvacuous :
+  exists st', handle_fe [(1%N, new_job)] (SubmitJobRequest [1%N; 1%N; 2%N] true) = (st', SubmitJobResponse (Some 2%N) None).
+Proof. eexists. vm_compute. reflexivity. Qed.
+
+Example C18_unknown_is_local_error_nonvacuous :
+  exists opre st, ex_run = (opre, Ok st) /\ jlookup 3%N st = None /\ jlookup 1%N st <> None /\
+    nth_error opre 9 = Some (Resp (JobProgressResponse [] (Some "KeyError"))) /\
+    (exists jb, jlookup 2%N st = Some jb /\ lookup ds_eqb (8, 7)%N (results jb) = None).
+Proof.
+  eexists _, _. split; [vm_compute; reflexivity|]. split; [vm_compute; reflexivity|].
+  split; [vm_compute; discriminate|]. split; [vm_compute; reflexivity|].
+  eexists. split; vm_compute; reflexivity.
+Qed.
+
+Example C18_known_jobs_answered_nonvacuous :
+  exists opre st, ex_run = (opre, Ok st) /\ forall i, In i (asked st [2%N; 1%N; 2%N]) -> jlookup i st <> None.
+Proof.
+  eexists _, _. split; [vm_compute; reflexivity|].
+  intros i [H|[H|[H|[]]]]; subst i; vm_compute; discriminate.
+Qed.
+
+Example C18_query_is_local_nonvacuous :
+  is_query (JobProgressRequest [3%N]) = true /\ is_query (ResultRetrievalRequest 3%N d0) = true /\
+  exists opre st1, run [] (firstn 5 ex_pre) = (opre, Ok st1) /\ exists opost fin, run st1 (skipn 5 ex_pre) = (opost, fin).
+Proof. split; [reflexivity|]. split; [reflexivity|]. eexists _, _. split; [vm_compute; reflexivity|]. eexists _, _. vm_compute. reflexivity. Qed.
+
+Example C18_never_leaves_loop_nonvacuous : Forall own_socket ex_pre /\ List.length ex_pre = 10%nat.
+Proof. split; [|reflexivity]. repeat constructor. Qed.
+
+Print Assumptions C18_progress_is_newest.
+Print Assumptions C18_shutdown_keeps_progress.
+Print Assumptions C18_socket_read_until_shutdown.
+Print Assumptions C18_results_exact.
+Print Assumptions C18_ids_never_reused.
+Print Assumptions C18_submitted_id_is_fresh.
+Print Assumptions C18_unknown_is_local_error.
+Print Assumptions C18_known_jobs_answered.
+Print Assumptions C18_query_is_local.
+Print Assumptions C18_never_leaves_loop.
